@@ -434,7 +434,7 @@ func (e *Engine) replayObligation(prop string, o *Obligation, why string) (strin
 			payload["replay_confirmed"] = ok
 			confirmed = ok
 		}
-	} else if o.Status == "sat" && !o.Cover {
+	} else if (o.Status == "sat" || o.candidateQF) && !o.Cover {
 		if out, ok, test := e.tryReplay(o); test != "" {
 			payload["replay_test"] = test
 			payload["replay_output"] = truncate(out, 8000)
